@@ -442,6 +442,24 @@ func c14random(c *vf.Ctx, i int) {
 		c14encodeWorld(c, gcsLargeCfg(c.R, i))
 		return
 	}
+	if c.R.Chance(1, 15) {
+		// N*M whose low 32-bit word lies within a few thousand of 2^32 (or of 0)
+		// and whose high word is large: the partial products of the 64x64 -> 128
+		// bit reduction then come within a hair of carrying, for the few per cent
+		// of items whose hash has its top bits set
+		r := c.R
+		N := 200 + r.Intn(20000)
+		hi := uint64(1) << uint(8+r.Intn(12))
+		hi += r.Uint64n(hi)
+		target := hi<<32 + 1<<32 - 1 - r.Uint64n(16)
+		if r.Chance(1, 3) {
+			target = hi<<32 + r.Uint64n(16)
+		}
+		M := target / uint64(N)
+		c.Inc("filters_with_N*M_low_word_near_2^32")
+		c14encodeWorld(c, gcsCfg{P: 32, M: M, N: N, MKind: "N*M low word near 2^32"})
+		return
+	}
 	c14encodeWorld(c, gcsRandomCfg(c.R, c.Tier.Sz(20000, 40000)))
 }
 
